@@ -266,6 +266,12 @@ pub fn gen(ctx: &mut Ctx) {
         let pay = ctx.rng.bytes(n);
         ctx.req(&format!("hostile {}", hx(&assemble(&lead, &sig, 0, &hdr, &pay))));
     }
+    // typed headers: every tag the accessors read, with wrong types / lengths / missing members
+    let n = ctx.q(3_000u64, 100_000) / sn;
+    for _ in 0..n {
+        let bytes = crate::c05::gen_typed(&mut ctx.rng);
+        ctx.req(&format!("hostile {}", hx(&bytes)));
+    }
     // mutated assets (thorough): random byte edits in the metadata region
     if ctx.thorough {
         for p in asset_paths() {
